@@ -33,7 +33,7 @@ def stmt(c):
     if nm == "Loop":
         return {"k": "while", "v": "-", "b": conv(c["do"]), "e": []}
     if nm == "Branch":
-        if c["else_body"] == "None":
+        if c.get("else_body", "None") == "None":      # spelled as None or left out
             return {"k": "if", "v": "-", "b": conv(c["if_body"]), "e": []}
         return {"k": "ifelse", "v": "-", "b": conv(c["if_body"]), "e": conv(c["else_body"])}
     if nm == "Scope":
